@@ -47,6 +47,11 @@ async fn is_block_dev(file: &File) -> Result<bool, std::io::Error> {
     use std::os::linux::fs::MetadataExt;
     #[cfg(target_os = "macos")]
     use std::os::macos::fs::MetadataExt;
+    // Verification hook: lets a regular file stand in for a block device.
+    #[cfg(oll3_bita_verif)]
+    if std::env::var_os("BITA_VERIF_BLOCKDEV").is_some() {
+        return Ok(true);
+    }
     let meta = file.metadata().await?;
     if meta.st_mode() & 0x6000 == 0x6000 {
         Ok(true)
